@@ -53,7 +53,8 @@ T = {
  "C25-q25": ("C25", "a freshly bootstrapped database, an acting user whose only admin role is idm_unix_admins (added directly), a high-privilege target and one of the unix attributes",
              "caught", "quick seed 1", "c25/hp-person-modified/unix_password, c25/hp-person-modified/ssh_publickey", None),
  "C34-q34": ("C34", "in one write transaction a key is revoked and the same key object is modified again (rotate / revoke / any change) before commit, the key's previous status change being from an earlier transaction",
-             None, None, None, None),
+             "caught", "quick seed 1", "c34/revoked-key-accepted/{jwe-refresh,es256-uat}/{local,replicated}",
+             "missed at first (every key action was its own transaction); a third of the revocations are now followed by a rotation or a repeated revocation of the same key object inside the same write transaction"),
  "C19-n19": ("C19", "two entries in one incoming replication change set end up with the same name while no third entry holds it",
              "caught", "quick seed 1", "c19/duplicate-unique-value/{name,spn}/replicated", None),
  "C22-p22": ("C22", "an entry is deleted, the domain is renamed, then the entry is revived",
